@@ -50,8 +50,17 @@ pub fn indices_of_parentheses(goal: &Vec<char>)
     let mut count_left  = 0;
     let mut count_right = 0;
 
+    // A parenthesis between double quotes, or escaped by a backslash,
+    // is an ordinary character (as in parse_arguments()).
+    let mut in_quotes = false;
+    let mut escaped   = false;
+
     for (i, ch) in goal.iter().enumerate() {
-        if *ch == '(' {
+        if escaped { escaped = false; }
+        else if in_quotes { if *ch == '"' { in_quotes = false; } }
+        else if *ch == '"' { in_quotes = true; }
+        else if *ch == '\\' { escaped = true; }
+        else if *ch == '(' {
             if left == -1 { left = i as i32; }
             count_left += 1;
         }
